@@ -119,6 +119,16 @@ func loadFindings() []Finding {
 
 // Finish prints KNOWN-FINDING / VIOLATION lines, writes the evidence file and returns the exit code.
 func (r *Result) Finish() int {
+	if want := os.Getenv("VERIF_REPLAY_KEY"); want != "" {
+		// replay mode: the originating check was re-run on the current tree; report whether the
+		// recorded violation recurs.  Neither evidence nor replay files are written.
+		if v, ok := r.viol[want]; ok {
+			fmt.Printf("REPLAY property=%s key=%s reproduced=true occurrences=%d\n  what=%s\n", r.Property, want, r.violCount[want], v.What)
+			return 1
+		}
+		fmt.Printf("REPLAY property=%s key=%s reproduced=false (the check ran to completion on the current tree without that violation)\n", r.Property, want)
+		return 0
+	}
 	known := map[string]Finding{}
 	for _, f := range loadFindings() {
 		if f.Property == r.Property && f.Status == "known" {
